@@ -52,7 +52,7 @@ theorem list_has_primary (s : State) (i : Inv s) (a x : Nat) (hx : x ∈ hostLis
 theorem reachable_is_live (s : State) (i : Inv s) (k h : Nat) :
     (s.indexes.get k = some h → Live s h ∧ (s.obj h).lidx = k) ∧
     (s.rindexes.get k = some h → Live s h ∧ (s.obj h).ridx = k) ∧
-    (s.relays.get k = some h → Live s h ∧ k ∈ (s.obj h).relays) := by
+    (s.relays.get k = some h → Live s h ∧ ((s.rstate h).byIdx.get k).isSome = true) := by
   refine ⟨fun e => ?_, fun e => i.core.ridx k h e, fun e => ⟨(i.core.rel k h e).1, (i.core.rel k h e).2.1⟩⟩
   have := (i.core.idx k h e).1
   exact ⟨by simpa [Live, this] using e, this⟩
@@ -126,8 +126,8 @@ theorem no_resurrection (s : State) (h : Nat) (hd : ¬ Live s h) : makePrimary s
   simp [hd]
 
 /-- … nor by a relay request (`AddRelay` refuses) -/
-theorem no_resurrection_by_relay (s : State) (h : Nat) (st : List Nat) (hd : ¬ Live s h) :
-    (addRelay s h st).1 = s ∧ ∀ idx, (addRelay s h st).2 ≠ .ok idx := by
+theorem no_resurrection_by_relay (s : State) (h : Nat) (rel : Relay) (st : List Nat) (hd : ¬ Live s h) :
+    (addRelay s h rel st).1 = s ∧ ∀ idx, (addRelay s h rel st).2 ≠ AllocRes.ok idx := by
   have hm := no_resurrection s h hd
   unfold addRelay
   generalize (32 : Nat) = fuel
@@ -152,7 +152,7 @@ theorem promotion_effect (s : State) (i : Inv s) (h : Nat) (hl : Live s h) :
   exact ⟨hok.mpr hl, same.indexes, same.rindexes, same.relays⟩
 
 -- non-vacuity: a history with the cap exceeded, a stale delete after the index was reused, a promotion and a relay
-example : Inv (run {} [.resp [1] 7 1 1 [5], .del 1, .resp [1, 2] 8 2 2 [5], .del 1, .prim 1, .relay 2 [9]]) :=
+example : Inv (run {} [.resp [1] 7 1 1 [5], .del 1, .resp [1, 2] 8 2 2 [5], .del 1, .prim 1, .relay 2 { type := 1, state := 2, peer := 3 } [9]]) :=
   inv_all_histories _
 example : (run {} [.resp [1] 7 1 1 [5], .del 1, .resp [1, 2] 8 2 2 [5], .del 1]).indexes.get 5 = some 2 := by decide
 example : (deleteHost (run {} [.resp [1] 7 1 1 [5], .resp [1] 8 2 2 [6]]) 2).2 = false := by decide
